@@ -51,3 +51,7 @@ Definition run_foc (root : itree) (m_eval m_create : nsmap) (e : xpath_expr) (ct
   | FocOk r p => 0%N :: enc_pos p ++ enc_node (content r)
   | FocFault r f => enc_fault f ++ enc_node (content r)
   end.
+
+(* CSS: the AST the model of cssselect's translation assigns to a selector of the modelled forms *)
+From Delb.XPath Require Import Css.
+Definition run_css_ast (g : group) : list N := enc_expr (css_ast g).
